@@ -166,9 +166,12 @@ pub fn gen(rng: &mut Rng, tier: Tier, out: &mut Vec<String>) {
     }
     // the lathe itself: smooth profiles, partial azimuth ranges, capped and not
     let ranges: &[(f32, f32)] = &[(0.0, 1.0), (0.0, 0.25), (0.1, 0.6), (-0.5, 0.5), (0.0, 0.75), (0.25, 1.25)];
-    for _ in 0..(if q { 150 } else { 3000 }) {
-        let secs = 3 + rng.below((smax - 2) as u64);
-        let n = 2 + rng.below(gmax as u64);
+    for j in 0..(if q { 150 } else { 3000 }) {
+        // every tenth lathe has MANY sectors (60..140) and few profile points: whatever the builder does every
+        // so many columns (re-synchronising the incremental rotation, chunked emission) shows only there
+        let many = j % 10 == 9;
+        let secs = if many { 60 + rng.below(81) as u32 } else { 3 + rng.below((smax - 2) as u64) as u32 };
+        let n = if many { 2 + rng.below(2) } else { 2 + rng.below(gmax as u64) };
         let (a0, a1) = *rng.pick(ranges);
         let capped = rng.below(2);
         let amp = rng.f32_in(0.0, 0.3);
